@@ -178,7 +178,7 @@ func runFiles(kind string, ninst int) {
 // ---------------------------------------------------------------------------------------------- locks
 
 type LockStep struct {
-	A    string `json:"a"` // request | acquire | release | abandon | wait
+	A    string `json:"a"` // request | acquire | release | abandon | wait | renew | holdrenew | releaserenew
 	I    int    `json:"i"`
 	N    string `json:"n"`
 	Busy bool   `json:"busy"`
@@ -204,12 +204,40 @@ type LockResult struct {
 	Events      []Event  `json:"events"`
 	End         int64    `json:"end"`
 	RenewFailed []int    `json:"renew_failed"` // instances whose lease renewal failed (scheduling delay or lost lease)
+	// when (microseconds since the start) the background renewal of an instance reported a failure
+	RenewFailedAt [][2]int64 `json:"renew_failed_at"`
 	Issues      []string `json:"issues,omitempty"`
+}
+
+// gateKV: the store of a lock behaviour; when armed, the next Renew that arrives is held (the renewal has read its token and is on its
+// way to the ring) until released, or for at most 400 ms
+type gateKV struct {
+	chord.KV
+	mu      sync.Mutex
+	armed   bool
+	parked  chan struct{}
+	release chan struct{}
+}
+
+func (g *gateKV) Renew(ctx context.Context, lease []byte, ttl time.Duration, prev uint64) (uint64, error) {
+	g.mu.Lock()
+	hold := g.armed
+	g.armed = false
+	g.mu.Unlock()
+	if hold {
+		close(g.parked)
+		select {
+		case <-g.release:
+		case <-time.After(400 * time.Millisecond):
+		}
+	}
+	return g.KV.Renew(ctx, lease, ttl, prev)
 }
 
 func runLock(kind string, b LockBehaviour) *LockResult {
 	res := &LockResult{}
-	kv := newKV(kind)
+	gkv := &gateKV{KV: newKV(kind), parked: make(chan struct{}), release: make(chan struct{})}
+	var kv chord.KV = gkv
 	ttl := time.Duration(b.TTLms) * time.Millisecond
 	ninst := 0
 	for _, s := range b.Steps {
@@ -279,6 +307,22 @@ func runLock(kind string, b LockBehaviour) *LockResult {
 			}
 		case "wait":
 			time.Sleep(time.Duration(s.Ms) * time.Millisecond)
+		case "holdrenew": // the next renewal that reaches the store is held there; the step returns once one is held
+			gkv.mu.Lock()
+			gkv.armed = true
+			gkv.mu.Unlock()
+			select {
+			case <-gkv.parked:
+			case <-time.After(2*ttl + 3*time.Second):
+				res.Issues = append(res.Issues, fmt.Sprintf("step %d: no renewal arrived at the store", si))
+			}
+		case "releaserenew":
+			close(gkv.release)
+			time.Sleep(30 * time.Millisecond) // the held renewal completes
+		case "renew": // the holder renews its lease explicitly (certmagic calls RenewLockLease during long operations); the lock stays held
+			t := time.Now()
+			err := st[s.I-1].RenewLockLease(ctx, s.N, ttl)
+			add(Event{I: s.I, N: s.N, Kind: "renewed", T: us(t), Err: errClass(err)})
 		case "release":
 			t := time.Now()
 			err := st[s.I-1].Unlock(ctx, s.N)
@@ -311,6 +355,9 @@ func runLock(kind string, b LockBehaviour) *LockResult {
 	for i, l := range logs {
 		if l.FilterMessageSnippet("failed to renew lease").Len() > 0 {
 			res.RenewFailed = append(res.RenewFailed, i+1)
+			for _, e := range l.FilterMessageSnippet("failed to renew lease").All() {
+				res.RenewFailedAt = append(res.RenewFailedAt, [2]int64{int64(i + 1), us(e.Time)})
+			}
 		}
 	}
 	return res
